@@ -3178,7 +3178,14 @@ impl<'a> Visitor<'a, '_, Error> for JSONValidator<'a> {
     }
 
     if let Value::Object(_) = &self.json {
-      return self.validate_object_value(value);
+      // A literal is looked up as a key of the object only while a member key
+      // is being evaluated; as a type, a literal value never matches a map
+      if self.state.is_member_key {
+        return self.validate_object_value(value);
+      }
+
+      self.add_error(format!("expected value {}, got {}", value, self.json));
+      return Ok(());
     }
 
     let error: Option<String> = match value {
